@@ -195,7 +195,7 @@ CHECKS = {
             "definitions.",
             "States merged by object value + interned bits with RenderArgs._interned rewound between branches; guarded "
             "by linear re-execution of every violation on fresh classes and by unmerged enumeration of all short "
-            "histories. Out of scope: RenderArgs subclasses, multiple inheritance of render classes, non-int field values.",
+            "histories. Out of scope: render classes with several render bases (diamonds); more than one mixin, or mixins on more than one class of the tree; RenderArgs subclasses; non-int / non-tuple field values.",
             "DESIGN.md 3/C16, B.2"),
     "C17": ("exploration",
             "exhaustive product-grid enumeration: every sub-rectangle of every canvas, differential oracle on a terminal model",
@@ -277,7 +277,8 @@ ADDENDA = {
     "C12": " Configurations also vary the process environment (TERM_PROGRAM / TERM_PROGRAM_VERSION unset or set, judged against the documented fallback wherever XTVERSION is unsupported, disabled or unanswered, with a reply taking precedence) and the configured query timeout (0.05 / 0.1 / 0.5 s, + 0.03 in thorough) with reply delays on both sides of the 0.1 s default; elapsed virtual time is bounded by the configured timeout per query.",
     "C16": " Field values include equal-but-distinguishable pairs (True/1, float(default)/default, fresh equal tuples); "
            "alteration of existing objects is judged by identity of constituent namespaces and by the type of every "
-           "field, not by ==.",
+           "field, not by ==. "
+           "Also every tree in which one class lists a plain, non-render mixin before or after its render base: class tables for every tree x owner subset x position; operator histories to depth 2 in quick, and in thorough to depth 3 for <= 3 classes (4-class trees: mixin first, depth 2).",
     "C17": " Also tall-narrow sources (columns < rows), off-grid pixel sizes at two cell sizes, the global cell ratio "
            "{0.25, 1.0, 2.0, ...}, canvases trimmed after their image was rendered again at another size, and pairs of "
            "content() iterators advanced in lock step. "
